@@ -14,6 +14,7 @@
 //!   X6  fragment wrapper (`frag=`; kinds stmts:a..b, ifthen:, ifexpr:, matcharm:, closure:, loop:N, loopbody:N, body): statements of the host function wrapped in a fn whose
 //!       signature is given in the template
 //!   X7  (nothing to do: generic impl headers are written in the template)
+//!   X9  constructor used as a function value in map/map_err -> eta-expanded closure (same meaning)
 //!   X8  closure parameter `_` -> `_vxN` (Verus accepts only variable binders; pure rename)
 //! Exit status: 0 ok, 3 anchor not found / unparsable (the driver reports UNDECIDED).
 
@@ -481,6 +482,37 @@ fn pass_x8(text: String) -> Result<(String, usize), Fail> {
     wf.visit_impl_item_fn(&f);
     let n = wf.edits.len();
     Ok((apply_edits(&text, wf.edits), n))
+}
+
+// ---- X9: a datatype constructor passed as a function value (`.map_err(Error::Storage)`) is eta-expanded
+// (`.map_err(|vx_e| Error::Storage(vx_e))`): Verus has no function values for constructors; same meaning.
+struct CtorArgFinder {
+    src: String,
+    edits: Vec<Edit>,
+}
+impl<'ast> Visit<'ast> for CtorArgFinder {
+    fn visit_expr_method_call(&mut self, m: &'ast syn::ExprMethodCall) {
+        if (m.method == "map_err" || m.method == "map") && m.args.len() == 1 {
+            if let Some(syn::Expr::Path(p)) = m.args.first() {
+                if p.path.segments.len() >= 2 {
+                    let last = p.path.segments.last().unwrap().ident.to_string();
+                    if last.chars().next().map(|c| c.is_ascii_uppercase()).unwrap_or(false) {
+                        let (s, e) = rng(p.span());
+                        let path_txt = self.src[s..e].to_string();
+                        self.edits.push((s, e, format!("|vx_e| {}(vx_e)", path_txt)));
+                    }
+                }
+            }
+        }
+        syn::visit::visit_expr_method_call(self, m);
+    }
+}
+fn pass_x9(text: String) -> Result<(String, usize), Fail> {
+    let f = parse_fn(&text)?;
+    let mut cf = CtorArgFinder { src: text.clone(), edits: vec![] };
+    cf.visit_impl_item_fn(&f);
+    let n = cf.edits.len();
+    Ok((apply_edits(&text, cf.edits), n))
 }
 
 // ---- X4 world threading
@@ -1017,6 +1049,10 @@ fn do_extract(repo: &str, ex: &Extract, probes: bool, probe_ctr: &mut usize) -> 
     let (t, n8) = pass_x8(t)?;
     if n8 > 0 {
         rewrites.insert("X8", n8);
+    }
+    let (t, n9) = pass_x9(t)?;
+    if n9 > 0 {
+        rewrites.insert("X9", n9);
     }
     let mut stateful: Vec<String> = ex.kv.get("stateful").map(|s| s.split(',').map(|x| x.trim().to_string()).filter(|x| !x.is_empty()).collect()).unwrap_or_default();
     if let Some(d) = ex.kv.get("__stateful_default") {
